@@ -254,6 +254,8 @@ _C03_STAGES = [
     {"variant": "dbg", "workload": "C03-sessions", "canary": ["unchecked-index", "unsafe precondition|non-unwinding panic"]},
     {"variant": "dbg", "workload": "C03-components"},
     {"variant": "dbg", "workload": "C03-arrays"},
+    {"variant": "dbg", "workload": "C03-sclosure", "shards": 16},
+    {"variant": "asan", "workload": "C03-sclosure", "shards": 16, "args_quick": ["--scale", "0.25"], "args_thorough": ["--scale", "0.1"]},
     {"variant": "asan", "workload": "C03-arrays", "args_quick": ["--scale", "0.25"], "args_thorough": ["--scale", "0.25"]},
     {"variant": "asan", "workload": "C03-sessions", "args_quick": ["--scale", "0.25"], "args_thorough": ["--scale", "0.25"], "canary": ["heap-write-past-end", "AddressSanitizer"]},
     {"variant": "asan", "workload": "C03-components"},
@@ -314,7 +316,7 @@ MANIFEST_TEXT["C16"] = {
 _SCL_RULE = (" Session-closure stage: breadth-first over the hooked state of the real Cli (edited line, cursor, stored history bytes, history selection) for 16 (quick) / 42 (thorough) configurations "
              "(command buffer 1..8, history buffer 0..9, four command sets, six prompts) under 13-14 keys (four characters of 1-3 bytes, Backspace, Left, Right, Up, Down, Tab, Enter, an application write): "
              "every key is applied in every state first reached, by replaying the key path that reached it with all monitors of the property on; a configuration is either closed (no new state) or cut at a state budget "
-             "(60k quick / 1.5M thorough), in which case every state reachable by fewer keys than the reported depth has been expanded.")
+             "(60k quick / 800k thorough), in which case every state reachable by fewer keys than the reported depth has been expanded.")
 for _p in ("C01", "C05", "C06", "C10", "C11", "C13", "C15"):
     PLANS[_p]["stages"].append({"variant": "dbg", "workload": _p + "-sclosure", "shards": 16})
     PLANS[_p]["rule"] += _SCL_RULE
